@@ -13,6 +13,7 @@
 #include "ThreadSafeVector.hpp"
 #include "Timer.hpp"
 #include "e1.hpp"
+#include "../C01/c01_ledger.hpp"
 #include "verif_common.hpp"
 
 #include <sstream>
@@ -28,6 +29,7 @@ struct Config {
   int steps;
 };
 
+static bool g_radiation = false;
 static std::string param_text(const Config &c) {
   std::ostringstream o;
   auto b = [](bool p) { return p ? "true" : "false"; };
@@ -48,8 +50,12 @@ static std::string param_text(const Config &c) {
     << "\n  boundary z high: " << bc(c.pz) << "\n  boundary z low: " << bc(c.pz) << "\n";
   o << "PhotonSourceDistribution:\n  type: SingleStar\n  luminosity: 1.e+49 Hz\n  position: [0. pc, 0. pc, 0. pc]\n";
   o << "PhotonSourceSpectrum:\n  type: Monochromatic\n  frequency: 3.28847e+15 Hz\n";
-  o << "TaskBasedRadiationHydrodynamicsSimulation:\n  number of iterations: 1\n  number of photons: 10\n"
-       "  random seed: 42\n  snapshot time: -1 s\n  total time: 0.01 Myr\n  do radiation: false\n"
+  if (g_radiation)
+    o << "DiffuseReemissionHandler:\n  type: FixedValue\n  reemission probability: 0.5\n  reemission frequency: 3.4e15 Hz\n";
+  o << "TaskBasedRadiationHydrodynamicsSimulation:\n  number of iterations: 2\n  number of photons: 7\n"
+    << (g_radiation ? "  diffuse field: true\n" : "") <<
+       "  random seed: 42\n  snapshot time: -1 s\n  total time: 0.01 Myr\n  do radiation: "
+    << (g_radiation ? "true" : "false") << "\n"
        "  number of buffers: 64\n  number of tasks: 1024\n  queue size per thread: 256\n"
        "  shared queue size: 256\n  source copy level: 0\n";
   o << "RecombinationRates:\n  type: FixedValue\n  hydrogen_1: 2.7e-13 cm^3 s^-1\n";
@@ -162,6 +168,10 @@ static void record_state(long step) {
 
 static void monitor(const e1::Event &e) {
   const std::string w = e.what;
+  if (g_mode == 2 && !g_in_hydro && w != "hydro_step_begin" && w != "hydro_tasks") {
+    c01::ledger_monitor(e);
+    return;
+  }
   if (w == "hydro_step_begin") {
     g_creator = (DensitySubGridCreator< HydroDensitySubGrid > *)e.ptr;
     g_step = e.a;
@@ -235,7 +245,8 @@ int main(int argc, char **argv) {
   Args A = parse_args(argc, argv);
   Result R(A);
   g_mode = (int)A.geti("mode", 0);
-  const std::string prop = g_mode == 1 ? "C10" : "C07";
+  g_radiation = g_mode == 2;
+  const std::string prop = g_mode == 1 ? "C10" : g_mode == 2 ? "C01" : "C07";
   const std::string tmp = fast_tmpdir();
   const std::string workdir = tmp + fmt("/c07_%d", (int)getpid());
   mkdir(workdir.c_str(), 0700);
@@ -286,6 +297,17 @@ int main(int argc, char **argv) {
   } else {
     jobs.push_back({cfgs[1], 3, 1, 1});
     jobs.push_back({cfgs[4], 3, 0, 1});
+  }
+  if (g_mode == 2 && A.replay.empty()) {
+    jobs.clear();
+    Config one_step = cfgs[1];
+    one_step.steps = 1;
+    jobs.push_back({A.thorough() ? cfgs[1] : one_step, 2, 1, 1});
+    if (A.thorough()) {
+      jobs.push_back({cfgs[3], 2, 0, 1});
+      jobs.push_back({cfgs[4], 2, 1, 1});
+      jobs.push_back({cfgs[1], 3, 1, 1});
+    }
   }
   if (!A.replay.empty()) {
     jobs.clear();
@@ -346,7 +368,9 @@ int main(int argc, char **argv) {
       TaskBasedRadiationHydrodynamicsSimulation::do_simulation(parser, false, programtimer, nullptr);
       if (g_steps_ended != J.cfg.steps)
         viol("steps", fmt("%ld of %d hydro steps ended", g_steps_ended, J.cfg.steps));
-      e1::rec.outcome = g_outcome + g_state_lines;
+      if (g_mode == 2 && c01::L.iterations_ended != 2 * J.cfg.steps)
+        e1::add_violation("C01:iterations:rhd", fmt("%ld photon iterations ended in %d steps of 2 iterations", c01::L.iterations_ended, J.cfg.steps));
+      e1::rec.outcome = g_outcome + g_state_lines + (g_mode == 2 ? c01::L.outcome : std::string());
       e1::finish_child(e1::V_OK);
     };
 
